@@ -106,7 +106,7 @@ Print Assumptions C02_abnf_no_call.
 
 (* ... and for the whole language with the built-in functions (Proofs/AbnfSpellG.v: the RFC grammar with every function call a well-typed use of
    length / count / value / match / search): find(string, v) is the RFC nodelist of a query, wherever those functions are registered with their signatures *)
-From JP Require Import Proofs.AbnfSpellG.
+From JP Require Import Spec.BuiltinGrammar Proofs.AbnfSpellG.
 Theorem C02_abnf_builtin : forall s, derives bf_grammar (R r_jsonpath_query) s ->
   exists B, forall cfg, reg_ok (reg cfg) = true -> (1 <= max_depth cfg)%nat -> min_idx cfg <= - B -> B <= max_idx cfg -> std cfg ->
     exists q, forall v, good cfg v -> m_env_find cfg s v = Ok (sem (reg cfg) (rx cfg) q v).
